@@ -48,8 +48,25 @@ func decodeRejects(codec segment.Codec, data []byte) (rejected bool, problem str
 	if seg != nil {
 		return false, "error returned together with a segment"
 	}
+	// the same corrupted bytes presented again (a retransmission), twice in a row to one codec of the same kind: a
+	// codec has no memory, what it refused once it refuses again
+	if mk := c07Fresh[codec]; mk != nil {
+		again := mk()
+		for i := 0; i < 2; i++ {
+			seg, err := again.DecodeSegment(bytes.NewReader(data))
+			if err == nil {
+				return false, fmt.Sprintf("accepted when presented again (presentation %d to one codec)", i+1)
+			}
+			if seg != nil {
+				return false, "error returned together with a segment"
+			}
+		}
+	}
 	return true, ""
 }
+
+// c07Fresh: shared codec -> constructor of a codec of the same kind.
+var c07Fresh = map[segment.Codec]func() segment.Codec{}
 
 func c07(args []string) int {
 	fs := flag.NewFlagSet("c07", flag.ExitOnError)
@@ -61,6 +78,10 @@ func c07(args []string) int {
 	rep := &Report{}
 	plain := segment.NewCodec()
 	lz4c := segment.NewCodecWithCompression(client.NewPayloadCompressor(primitive.CompressionLz4))
+	c07Fresh[plain] = func() segment.Codec { return segment.NewCodec() }
+	c07Fresh[lz4c] = func() segment.Codec {
+		return segment.NewCodecWithCompression(client.NewPayloadCompressor(primitive.CompressionLz4))
+	}
 	var evals int64
 	var mu sync.Mutex
 	distinct := 0
